@@ -43,7 +43,7 @@ ROOTMARK = '@ROOT@'   # absolute spellings: replaced by the project root when th
 
 # positions an import expression is put at / positions an include expression is put at
 IMPORT_POS = ['top', 'topsel', 'tuple', 'list', 'selectarm', 'func', 'map', 'filter', 'reduce', 'mapfunc', 'modbody', 'modlet', 'modout',
-              'modmap', 'letc', 'fail']
+              'modmap', 'letc', 'fail', 'fmtexpr']
 INCLUDE_POS = [p for p in IMPORT_POS if p not in ('top', 'modlet', 'letc')]
 NOT_EAGER = ('letc', 'fail')
 EAGER_IMPORT_POS = [p for p in IMPORT_POS if p not in NOT_EAGER]
@@ -114,7 +114,7 @@ def resolve(importer, spell):
 
 def contribution(pos, s):
     return {'top': s, 'topsel': s, 'tuple': s, 'list': s, 'selectarm': s, 'func': 2 * s + 1, 'map': 2 * s + 1, 'filter': s, 'reduce': 2 * s + 3,
-            'mapfunc': s, 'modbody': 2 * s + 3, 'modlet': 2 * s + 3, 'modout': 2 * s + 3, 'modmap': s + 1, 'letc': 5}[pos]
+            'mapfunc': s, 'modbody': 2 * s + 3, 'modlet': 2 * s + 3, 'modout': 2 * s + 3, 'modmap': s + 1, 'letc': 5, 'fmtexpr': s}[pos]
 
 
 def ident(path):
@@ -184,7 +184,7 @@ def render_edge(k, e):
     else:
         x = '(select (include str "%s", 0) => { k%d = %d })' % (sp, s, s)
     # u: the binding only the right file has; a let-bound import (top, modlet) always reads it as well
-    d = dict(k=k, x=x, p=sp, s=s, s1=s + 1, f=e['field'], u='s_' + ident(e['tgt']))
+    d = dict(k=k, x=x, p=sp, s=s, s1=s + 1, f=e['field'], u='s_' + ident(e['tgt']), xq=x.replace('"', '\\"'))
     t = {
         'top': 'let i%(k)d = import "%(p)s";\nlet e%(k)d = i%(k)d.%(f)s;\nlet a%(k)d = i%(k)d.%(u)s;\n',
         'topsel': 'let e%(k)d = %(x)s;\n',
@@ -202,6 +202,8 @@ def render_edge(k, e):
         'modmap': 'let m%(k)d = module {a = 0} => (r) { let l = map(func (q) => %(x)s + q, [mod.a]); let r = l.0; };\nlet e%(k)d = m%(k)d{a = 1};\n',
         'letc': 'let e%(k)d :: ((import "%(p)s").shp) = 5;\n',
         'fail': 'let e%(k)d = fail "FAILMSG[@]" %% (%(x)s);\n',
+        # an expression embedded in a format template (parsed when the format expression is translated)
+        'fmtexpr': 'let fs%(k)d = "@{%(xq)s + item}" %% 0;\nlet e%(k)d = int(fs%(k)d);\n',
     }[e['pos']] % d
     if e['probe']:
         t += {'name': 'let w%(k)d = (import "%(p)s").name + "x";\n',
